@@ -16,7 +16,7 @@ RULE = _rtc.RTC_RULE
 Z = "vf.contracts.z3solve"
 FUNCTIONS = ["backend_z3.z3_solver_sat", "BackendZ3._batch_eval", "BackendZ3._extrema"] + \
             [f"ModelCacheMixin.{m} (exceptional postcondition)" for m in ("eval", "batch_eval", "min", "max", "solution", "satisfiable")] + \
-            ["CompositeFrontend.check_satisfiability (a child's solver call gives up: representation invariant kept)", "CompositeFrontend._ensure_sat"]
+            ["HybridFrontend queries (the exact frontend gives up: the error propagates, never the approximation's answer)", "CompositeFrontend.check_satisfiability (a child's solver call gives up: representation invariant kept)", "CompositeFrontend._ensure_sat"]
 TRUSTED = _rtc.RTC_TRUSTED + ["ghost solver: push/pop/add/model as documented by Z3"]
 ASSUMPTIONS = ["the thin mixins above ModelCacheMixin are proved to stay consistent when the stack below gives up (layer.*[fault], 19 obligations); FullFrontend across a raised call: bounded part only",
                "value universe of 2 bits for _batch_eval (n <= 3), 3 bits for _extrema"]
@@ -34,4 +34,7 @@ def tasks(tier, seed=0):
         out.append(task("vf.contracts.composite", "ob_composite", f"composite.{m}/rep-after-a-child-gave-up", ["C17", "C12"], method=m, tier=tier))
     from vf.contracts import layers
     out += layers.fault_tasks(tier)
+    from vf.contracts import hybrid
+    for m in hybrid.QUERIES + ["eval[approximate_first]"]:
+        out.append(task("vf.contracts.hybrid", "ob_hybrid", f"hybrid.{m}[exact-solver-may-give-up]/raises-not-approximates", ["C17", "C13"], method=m, tier=tier, faults=True))
     return out + _rtc.rtc_tasks("C17", tier, seed)
